@@ -74,7 +74,13 @@ def render_feature(case):
         if ex["table"] is not None:
             t = ex["table"]
             t["line"] = emit("      | " + " | ".join(t["head"]) + " |")
-            t["rows"] = [[cells, emit("      | " + " | ".join(cells) + " |")] for cells in t["rows"]]
+            gaps = t.pop("gaps", None) or [None] * len(t["rows"])
+            rows = []
+            for cells, gap in zip(t["rows"], gaps):
+                if gap is not None:
+                    emit(gap)
+                rows.append([cells, emit("      | " + " | ".join(cells) + " |")])
+            t["rows"] = rows
     return "\n".join(lines) + "\n", c
 
 
@@ -401,7 +407,9 @@ def gen_case(rnd, allow_chained=False):
         rows = [[rnd.choice(pool) for _ in head] for _ in range(rnd.choice([0, 1, 2, 2, 3]))]
         examples.append({"name": rnd.choice(["", "E", "for <%s>" % cols[0], "block <examples.index>", "Ünï"]),
                          "tags": rnd.sample(["ex1", "ex2", "with_<%s>" % ([c for c in cols if " " not in c] or ["name"])[0]], rnd.choice([0, 0, 1, 2])),
-                         "table": {"head": head, "rows": rows, "line": 0}})
+                         "table": {"head": head, "rows": rows, "line": 0,
+                                   # comment / blank lines in front of a row: the row's line is where it is written
+                                   "gaps": [rnd.choice([None, None, None, "      # note", "", "# c"]) for _ in rows]}})
     case = {"name": gen_text(rnd, cols, params if rnd.random() < 0.3 else ()), "tags": tags,
             "steps": first_is_real([gen_step(rnd, cols, params=(params if rnd.random() < 0.2 else ())) for _ in range(rnd.randint(1, 4))]),
             "background": first_is_real([gen_step(rnd, cols if rnd.random() < 0.5 else []) for _ in range(rnd.randint(1, 2))] if rnd.random() < 0.3 else []),
